@@ -133,6 +133,13 @@ func lexClauses(b []byte, items []lexer.Item) string {
 			if off < prev || off > len(b) {
 				return "eof-offset"
 			}
+			// EOF repeats the position of the last rune read (a real place of the input); {0,1,0} before any rune
+			if off >= 1 && (int(lines[off]) != it.Pos.Line || int(cols[off]) != it.Pos.Column) {
+				return "eof-linecol"
+			}
+			if off == 0 && (it.Pos.Line != 1 || it.Pos.Column != 0) {
+				return "eof-linecol"
+			}
 			continue
 		}
 		if off <= prev && i > 0 || off < 1 || off > len(b) {
